@@ -1036,6 +1036,12 @@ class Planner:
         r = self.rng
         kw = {}
         mode = r.random()
+        if mode < 0.1 and self.cfg.get("user_sets", True):
+            # the caller's own set of types to preserve (a set, not a tuple)
+            st = self.new()
+            if self.emit(["lit", st, ["set", ["fn", "ufl.classes." + r.choice(["CellVolume", "FacetArea", "Jacobian", "FacetNormal"])]]], kind="set"):
+                self.dicts.append(st)
+                return {"do_apply_function_pullbacks": True, "do_apply_integral_scaling": True, "do_apply_geometry_lowering": True, "preserve_geometry_types": self.ref(st)}
         if mode < 0.12:
             # option set of a form compiler that estimates degrees itself
             kw = {"do_apply_function_pullbacks": True, "do_apply_integral_scaling": True, "do_apply_geometry_lowering": True, "do_estimate_degrees": False}
@@ -1160,8 +1166,12 @@ class Planner:
             if w is None:
                 return None
             mapping = self.new()
-            if not self.emit(["lit", mapping, ["d", [[self.ref(u), self.ref(w)]]]], kind="mapping"):
+            val = self.ref(w)
+            if self.shape(u) == () and r.random() < 0.3:
+                val = r.choice([2, 0.5, 0, 1])  # a python number: replace() has to wrap it itself
+            if not self.emit(["lit", mapping, ["d", [[self.ref(u), val]]]], kind="mapping"):
                 return None
+            self.dicts.append(mapping)
             return self.call("ufl.replace", F, self.ref(mapping), kind="form", keep_failed=kf)
         if c == "algebra_lowering":
             return self.call("ufl.algorithms.apply_algebra_lowering.apply_algebra_lowering", F, kind="form", keep_failed=kf)
@@ -1554,6 +1564,7 @@ class Planner:
                     "ufl.algorithms.validate_form",
                     "ufl.algorithms.compute_form_arities",
                     "ufl.algorithms.extract_elements",
+                    "sim.ops.sort_elements_of",
                     "ufl.algorithms.tree_format",
                     "ufl.energy_norm",
                     "ufl.functional",
@@ -1619,7 +1630,7 @@ class Planner:
                 self.flat_form(M)
             else:
                 self.form(M, r.choice([0, 1, 1, 2, 2]), self.cfg.get("depth") or r.choice([2, 3, 3]))
-        if r.random() < self.cfg.get("msq_p", 0.08):
+        if r.random() < self.cfg.get("msq_p", 0.1):
             self.mesh_sequence_form()
         if r.random() < self.cfg.get("bfo_form_p", 0.15):
             self.bfo_forms()
@@ -2320,6 +2331,14 @@ class Planner:
             bp, bpool = self.base_form_operators()
             pairs += bp
             pool += bpool
+        # forms over several meshes: the same form with the extra-domain map of its integrals
+        # handed over in another key order must be equal, with equal hash, repr and signature
+        for f, rank, mi in list(self.forms):
+            if self.meshes[mi].get("msq"):
+                t = self.call("sim.ops.reorder_extra_domain_maps", self.ref(f), kind="form")
+                if t is not None:
+                    pairs.append([f, t, "twin:extra-domain-map-order"])
+                    pool.append(t)
         if r.random() < self.cfg.get("rebuild_p", 0.5):
             cp, cpool = self.component_rebuilds()
             pairs += cp
